@@ -78,3 +78,8 @@ VARIANTS += [
     M('C06', 'refactor-detection-flags-as-a-series-with-the-column-index', E(PC, "        return np.where(pd.isnull(column), null, expr.astype('O'))", "        return pd.Series(np.where(pd.isnull(column), null, expr.astype('O')), index=column.index, dtype='O')"), kind='refactor'),
     M('C06', 'refactor-failing-mask-named-at-its-use', E(PC, "        if not detect_write_all:\n            out_df = out_df[out_df[nfailname] > 0]\n        return Detection(", "        if not detect_write_all:\n            still_failing = out_df[nfailname] > 0\n            out_df = out_df[still_failing]\n        return Detection("), kind='refactor'),
 ]
+
+VARIANTS += [
+    M('C06', 'original-columns-joined-by-label', E(PC, "                if fname in list(self.df):\n                    out_df.insert(0, fname, self.df[fname])", "                if fname in list(self.df):\n                    out_df = self.df[[fname]].join(out_df)"),
+      rule='C06-ALIGNED', key='join'),
+]
